@@ -1137,7 +1137,7 @@ func buildCatalogue() []*entry {
 	}})
 
 	// ---- valid-but-unusual inputs: succeed or fail cleanly, never crash
-	for _, kind := range []string{"distinct", "same-name", "func-literal", "method-body", "instantiation", "init-and-nested"} {
+	for _, kind := range []string{"distinct", "same-name", "func-literal", "method-body", "instantiation", "init-and-nested", "blank-identifier"} {
 		kind := kind
 		add(&entry{ID: "u-local-type/" + kind, Level: "source", Unusual: true, Apply: func(t *rapid.T, b *builder) {
 			p := b.tp()
@@ -1152,6 +1152,9 @@ func buildCatalogue() []*entry {
 				}
 			case "func-literal":
 				body = "var computed = func() int {\n\ttype InLiteral interface{ Z() }\n\tvar _ InLiteral\n\treturn 0\n}()\n"
+			case "blank-identifier":
+				// declarations under the blank identifier are legal Go and declare nothing
+				body = "type _ interface{ Blank() }\n\ntype _ boxB[int]\n\ntype boxB[T any] interface{ Get() T }\n"
 			case "method-body":
 				body = "type holder struct{}\n\nfunc (holder) Method() {\n\ttype InMethod interface{ Q() }\n\tvar _ InMethod\n}\n"
 			case "instantiation":
